@@ -606,6 +606,13 @@ func runTree(n int, out string, replay string) {
 			tCase{Root: tNode{Kind: "owner", Trap: true, Kids: []tNode{{Kind: "owner", LP: true, FailInit: true, Kids: []tNode{leafT, {Kind: "sup", LP: true, SupType: "afo", Kids: []tNode{leafT}}}}}}, Fault: "initfail", Target: "0", Tags: []string{"corpus", "fault-initfail"}},
 			// a supervisor whose start fails after a trapping child and a nested supervisor
 			tCase{Root: tNode{Kind: "sup", SupType: "rfo", FailInit: true, Kids: []tNode{leafT, {Kind: "sup", SupType: "ofo", Kids: []tNode{leafT}}}}, Fault: "initfail", Target: "", Tags: []string{"corpus", "fault-initfail"}},
+			// thorough-tier case: the init of a trapping LinkChild+LinkParent child of a NON-trapping owner fails after it
+			// started an unlinked supervisor: the owner gets only the error of Spawn (no exit signal: the LinkChild relation is
+			// added after a successful spawn), so the owner, its pool and the unlinked supervisor stay
+			tCase{Root: tNode{Kind: "owner", Kids: []tNode{
+				{Kind: "owner", Trap: true, LP: true, LC: true, FailInit: true, Kids: []tNode{{Kind: "sup", SupType: "afo", Kids: []tNode{leafP}}}},
+				{Kind: "pool", LP: true, Kids: []tNode{{Kind: "owner", Kids: []tNode{leafP}}, {Kind: "owner", Kids: []tNode{leafP}}}}}},
+				Fault: "initfail", Target: "0", Tags: []string{"corpus", "fault-initfail"}},
 			// pool killed, workers trap
 			tCase{Root: tNode{Kind: "sup", SupType: "ofo", Kids: []tNode{{Kind: "pool", Kids: []tNode{leafT, leafT, leafT}}}}, Fault: "kill", Target: "0", Tags: []string{"corpus", "fault-kill"}},
 		)
